@@ -174,4 +174,166 @@ theorem callMeta2_param (hc : CallOK call) (d : Nat) (name : String) (a b : Val 
     · exact RRel.bind (callVal_param hc _ _ _ h) fun _ _ _ hs => RRel.ok hs
   · exact RRel.bind (callVal_param hc _ _ _ h) fun _ _ _ hs => RRel.ok hs
 
+theorem binopVal_param (hc : CallOK call) (d : Nat) (op : BinOp) (a b : Val N) {σ σ' : State N} (h : SRel σ σ') :
+    RRel (binopVal call ρ d op a b σ) (binopVal call ρ d op a b σ') := by
+  have hm : ∀ name (f : State N → Res N (Val N)), (∀ s s', SRel s s' → RRel (f s) (f s')) →
+      RRel (callMeta2 call ρ d name a b σ f) (callMeta2 call ρ d name a b σ' f) :=
+    fun name f hf => callMeta2_param hc d name a b h hf
+  cases op <;> simp only [binopVal, h.metamethod]
+  case and => exact RRel.ok h
+  case or => exact RRel.ok h
+  case eq | ne =>
+    split
+    · split
+      · exact RRel.ok h
+      · split
+        · exact RRel.ok h
+        · exact RRel.bind (callVal_param hc _ _ _ h) fun _ _ _ hs => RRel.ok hs
+        · exact RRel.bind (callVal_param hc _ _ _ h) fun _ _ _ hs => RRel.ok hs
+    · exact RRel.ok h
+  case lt | le | gt | ge =>
+    split
+    · exact RRel.ok h
+    · exact RRel.ok h
+    · exact RRel.bind (callMeta2_param hc _ _ _ _ h fun _ _ hs => RRel.errS hs) fun _ _ _ hs => RRel.ok hs
+  all_goals
+    split
+    · exact RRel.ok h
+    · exact hm _ _ fun _ _ hs => RRel.errS hs
+
+theorem unopVal_param (hc : CallOK call) (d : Nat) (op : UnOp) (a : Val N) {σ σ' : State N} (h : SRel σ σ') :
+    RRel (unopVal call ρ d op a σ) (unopVal call ρ d op a σ') := by
+  cases op <;> simp only [unopVal, h.metamethod, h.border]
+  · split
+    · exact RRel.ok h
+    · split
+      · exact RRel.errS h
+      · exact RRel.bind (callVal_param hc _ _ _ h) fun _ _ _ hs => RRel.ok hs
+  · exact RRel.ok h
+  · split
+    · exact RRel.ok h
+    · split
+      · exact RRel.ok h
+      · exact RRel.bind (callVal_param hc _ _ _ h) fun _ _ _ hs => RRel.ok hs
+    · split
+      · exact RRel.errS h
+      · exact RRel.bind (callVal_param hc _ _ _ h) fun _ _ _ hs => RRel.ok hs
+
+theorem storeTarget_param (hc : CallOK call) (k : Nat) (env : Env N) (tg : Target N) (v : Val N)
+    {σ σ' : State N} (h : SRel σ σ') :
+    RRel (storeTarget call ρ k env tg v σ) (storeTarget call ρ k env tg v σ') := by
+  cases tg <;> simp only [storeTarget]
+  · exact RRel.ok (h.assignVar _ _ _)
+  · exact setIndexVal_param hc _ _ _ _ h
+
+theorem storeTargets_param (hc : CallOK call) (k : Nat) (env : Env N) (tgs : List (Target N)) (vs : List (Val N))
+    {σ σ' : State N} (h : SRel σ σ') :
+    RRel (storeTargets call ρ k env tgs vs σ) (storeTargets call ρ k env tgs vs σ') := by
+  induction tgs generalizing vs with
+  | nil => simp only [storeTargets]; exact RRel.ok h
+  | cons tg rest ih =>
+    simp only [storeTargets]
+    exact RRel.bind (ih _) fun _ _ _ hs => storeTarget_param hc _ _ _ _ hs
+
+theorem walkFields_param (hc : CallOK call) (k : Nat) (v : Val N) (path : List String)
+    {σ σ' : State N} (h : SRel σ σ') :
+    RRel (walkFields call ρ k v path σ) (walkFields call ρ k v path σ') := by
+  induction path generalizing v σ σ' with
+  | nil => simp only [walkFields]; exact RRel.errS h
+  | cons f rest ih =>
+    cases rest with
+    | nil => simp only [walkFields]; exact RRel.ok h
+    | cons g rest' =>
+      simp only [walkFields]
+      exact RRel.bind (indexVal_param hc _ _ _ h) fun _ _ _ hs => ih _ hs
+
+/-! ### loops: related step functions give related loops -/
+
+theorem whileLoop_rel {step step' : State N → Res N (Option (Ctl N))}
+    (hstep : ∀ s s', SRel s s' → RRel (step s) (step' s')) (n : Nat) {σ σ' : State N} (h : SRel σ σ') :
+    RRel (whileLoop step n σ) (whileLoop step' n σ') := by
+  induction n generalizing σ σ' with
+  | zero => simp only [whileLoop]; exact RRel.timeout
+  | succ n ih =>
+    have hr := hstep σ σ' h
+    unfold whileLoop
+    revert hr
+    generalize step σ = r
+    generalize step' σ' = r'
+    intro hr
+    cases r <;> cases r' <;> simp only [RRel] at hr
+    · obtain ⟨rfl, hs⟩ := hr
+      rename_i a _ _
+      cases a with
+      | none => exact RRel.ok hs
+      | some c => cases c <;> first | exact RRel.ok hs | exact ih hs
+    · obtain ⟨rfl, hs⟩ := hr
+      exact RRel.err hs
+    · exact RRel.timeout
+
+
+theorem forLoop_rel {body body' : N.F → State N → Res N (Ctl N)}
+    (hbody : ∀ i s s', SRel s s' → RRel (body i s) (body' i s')) (limit step : N.F) (n : Nat) (i : N.F)
+    {σ σ' : State N} (h : SRel σ σ') :
+    RRel (forLoop body limit step n i σ) (forLoop body' limit step n i σ') := by
+  induction n generalizing i σ σ' with
+  | zero => simp only [forLoop]; exact RRel.timeout
+  | succ n ih =>
+    unfold forLoop
+    simp only []
+    generalize (if N.lt (N.ofNat 0) step = true then N.le i limit else N.le limit i) = cont
+    cases cont
+    · simp only [Bool.not_false, if_true]
+      exact RRel.ok h
+    · simp only [Bool.not_true, Bool.false_eq_true, if_false]
+      have hr := hbody i σ σ' h
+      revert hr
+      generalize body i σ = r
+      generalize body' i σ' = r'
+      intro hr
+      cases r <;> cases r' <;> simp only [RRel] at hr
+      · obtain ⟨rfl, hs⟩ := hr
+        rename_i c _ _
+        cases c <;> first | exact RRel.ok hs | exact ih _ hs
+      · obtain ⟨rfl, hs⟩ := hr
+        exact RRel.err hs
+      · exact RRel.timeout
+
+theorem gforLoop_rel {iter iter' : Val N → State N → Res N (List (Val N))}
+    {body body' : List (Val N) → State N → Res N (Ctl N)}
+    (hiter : ∀ c s s', SRel s s' → RRel (iter c s) (iter' c s'))
+    (hbody : ∀ rs s s', SRel s s' → RRel (body rs s) (body' rs s')) (n : Nat) (ctl : Val N)
+    {σ σ' : State N} (h : SRel σ σ') :
+    RRel (gforLoop iter body n ctl σ) (gforLoop iter' body' n ctl σ') := by
+  induction n generalizing ctl σ σ' with
+  | zero => simp only [gforLoop]; exact RRel.timeout
+  | succ n ih =>
+    unfold gforLoop
+    have hr := hiter ctl σ σ' h
+    revert hr
+    generalize iter ctl σ = r
+    generalize iter' ctl σ' = r'
+    intro hr
+    cases r <;> cases r' <;> simp only [RRel] at hr
+    · obtain ⟨rfl, hs⟩ := hr
+      rename_i rs s1 s1'
+      simp only []
+      split
+      · exact RRel.ok hs
+      · have hb := hbody rs s1 s1' hs
+        revert hb
+        generalize body rs s1 = r
+        generalize body' rs s1' = r'
+        intro hb
+        cases r <;> cases r' <;> simp only [RRel] at hb
+        · obtain ⟨rfl, hs2⟩ := hb
+          rename_i c _ _
+          cases c <;> first | exact RRel.ok hs2 | exact ih _ hs2
+        · obtain ⟨rfl, hs2⟩ := hb
+          exact RRel.err hs2
+        · exact RRel.timeout
+    · obtain ⟨rfl, hs⟩ := hr
+      exact RRel.err hs
+    · exact RRel.timeout
+
 end DarkluaModel.Sem
